@@ -22,3 +22,189 @@ fn c13_new_line_start() {
     }
     kani::cover!(r.is_some());
 }
+
+// ---------------------------------------------------------------------------------------------
+// Locators on texts with a CONCRETE line-break layout (symbolic Vec lengths do not terminate, see
+// DESIGN 1); every other byte is symbolic.  layout[i] = 0: any ASCII byte other than CR/LF,
+// 1: LF, 2: CR, >= 0x80: that literal byte.
+use std::mem::ManuallyDrop;
+
+fn text_of_layout<'a>(layout: &[u8], buf: &'a mut [u8; 6]) -> &'a str {
+    let n = layout.len();
+    for i in 0..6 {
+        if i < n {
+            match layout[i] {
+                0 => {
+                    kani::assume(buf[i] < 128 && buf[i] != b'\n' && buf[i] != b'\r');
+                }
+                1 => buf[i] = b'\n',
+                2 => buf[i] = b'\r',
+                lit => buf[i] = lit,
+            }
+        }
+    }
+    unsafe { std::str::from_utf8_unchecked(&buf[..n]) }
+}
+
+fn is_break_end(b: &[u8], e: usize) -> bool {
+    0 < e && e <= b.len() && (b[e - 1] == b'\n' || (b[e - 1] == b'\r' && !(e < b.len() && b[e] == b'\n')))
+}
+
+/// 1-based (row, column) of a byte offset, from the property statement: CR, LF and CRLF are one
+/// line break each, multi-byte characters one column, a leading BOM not counted.
+fn expected_location(b: &[u8], o: usize) -> (u32, u32) {
+    let mut row = 0;
+    let mut line_start = 0;
+    for e in 1..7 {
+        if e <= o && is_break_end(b, e) {
+            row += 1;
+            line_start = e;
+        }
+    }
+    let mut from = line_start;
+    if line_start == 0 && b.len() >= 3 && b[0] == 0xEF && b[1] == 0xBB && b[2] == 0xBF && o >= 3 {
+        from = 3;
+    }
+    let mut col = 0;
+    for i in 0..6 {
+        if i >= from && i < o && (b[i] & 0xC0) != 0x80 {
+            col += 1;
+        }
+    }
+    (row + 1, col + 1)
+}
+
+fn slice_error_fail_plain(_s: &str, _begin: usize, _end: usize) -> ! {
+    panic!("str slice index out of range or not on a char boundary")
+}
+fn count_chars_plain(s: &str) -> usize {
+    let b = s.as_bytes();
+    assert!(b.len() <= 6);
+    let mut n = 0;
+    for i in 0..6 {
+        if i < b.len() && (b[i] & 0xC0) != 0x80 {
+            n += 1;
+        }
+    }
+    n
+}
+fn fmt_stub(_a: std::fmt::Arguments<'_>) -> String {
+    String::new()
+}
+
+/// Both locators on one layout: the indexed locator at a symbolic offset, and the linear-scan
+/// locator at two symbolic non-decreasing offsets (so that it has to move its cursor), must return
+/// the expected 1-based row and column - hence identical results.
+fn locators_agree_on(layout: &[u8]) {
+    let mut buf: [u8; 6] = kani::any();
+    let text = text_of_layout(layout, &mut buf);
+    let b = text.as_bytes();
+    let n = b.len();
+    let o1: usize = kani::any();
+    let o2: usize = kani::any();
+    kani::assume(o1 <= o2 && o2 <= n && text.is_char_boundary(o1) && text.is_char_boundary(o2));
+    // a BOM is skipped by the parser: positions inside it are never located
+    let bom = n >= 3 && b[0] == 0xEF;
+    kani::assume(!bom || o1 >= 3);
+    let mut random = ManuallyDrop::new(RandomLocator::new(text));
+    let mut linear = ManuallyDrop::new(LinearLocator::new(text));
+    let e1 = expected_location(b, o1);
+    let e2 = expected_location(b, o2);
+    let r2 = random.locate(TextSize::new(o2 as u32));
+    assert!(r2.row.get() == e2.0 && r2.column.get() == e2.1);
+    let l1 = linear.locate(TextSize::new(o1 as u32));
+    assert!(l1.row.get() == e1.0 && l1.column.get() == e1.1);
+    let l2 = linear.locate(TextSize::new(o2 as u32));
+    assert!(l2.row.get() == e2.0 && l2.column.get() == e2.1);
+}
+
+macro_rules! locators {
+    ($name:ident, $($s:expr),*) => {
+        #[kani::proof]
+        #[kani::unwind(8)]
+        #[kani::stub(core::str::slice_error_fail, slice_error_fail_plain)]
+        #[kani::stub(core::str::count::count_chars, count_chars_plain)]
+        #[kani::stub(alloc::fmt::format, fmt_stub)]
+        fn $name() {
+            $( locators_agree_on(&$s); )*
+        }
+    };
+}
+
+/// The linear-scan locator asked for ONE symbolic offset on a fresh cursor, and the indexed
+/// locator for the same offset: both must give the expected row and column.
+fn locate_once_on(layout: &[u8]) {
+    let mut buf: [u8; 6] = kani::any();
+    let text = text_of_layout(layout, &mut buf);
+    let b = text.as_bytes();
+    let n = b.len();
+    let o: usize = kani::any();
+    kani::assume(o <= n && text.is_char_boundary(o));
+    let bom = n >= 3 && b[0] == 0xEF;
+    kani::assume(!bom || o >= 3);
+    let e = expected_location(b, o);
+    let mut linear = ManuallyDrop::new(LinearLocator::new(text));
+    let l = linear.locate(TextSize::new(o as u32));
+    assert!(l.row.get() == e.0 && l.column.get() == e.1);
+    let mut random = ManuallyDrop::new(RandomLocator::new(text));
+    let r = random.locate(TextSize::new(o as u32));
+    assert!(r.row.get() == e.0 && r.column.get() == e.1);
+}
+
+macro_rules! locate_once {
+    ($name:ident, $s:expr) => {
+        #[kani::proof]
+        #[kani::unwind(8)]
+        #[kani::stub(core::str::slice_error_fail, slice_error_fail_plain)]
+        #[kani::stub(core::str::count::count_chars, count_chars_plain)]
+        #[kani::stub(alloc::fmt::format, fmt_stub)]
+        fn $name() {
+            locate_once_on(&$s);
+        }
+    };
+}
+
+// @ob id=C13.k.locate_once_ascii props=C13 kind=bounded tier=quick timeout=900
+// @bound texts with the layout [0, 1, 0] (x LF x, x symbolic ASCII); every offset; one query on a fresh linear-scan cursor
+// @clause the incremental (linear-scan) locator and the indexed locator return identical results: the 1-based row and character column of the offset (the linear locator's own debug cross-check against the indexed one is compiled in and proved not to fire)
+// @fns LinearLocator::locate LinearLocator::locate_inner LinearLocatorState::init LinearLocatorState::new_line_start RandomLocator::locate RandomLocator::new
+locate_once!(c13_locate_once_ascii, [0, 1, 0]);
+
+// @ob id=C13.k.locate_once_utf8 props=C13 kind=bounded tier=quick timeout=900
+// @bound texts with the layout [0xC3, 0xA9, 1, 0] (a two-byte character, LF, x); every offset on a character boundary; one query on a fresh cursor
+// @clause multi-byte characters count as one column, identically in both locators
+// @fns LinearLocator::locate LinearLocator::locate_inner RandomLocator::locate
+locate_once!(c13_locate_once_utf8, [0xC3, 0xA9, 1, 0]);
+
+// @ob id=C13.k.locators_agree_t1 props=C13 kind=bounded tier=thorough timeout=2400
+// @bound texts with the layout [1, 0] (LF x); all pairs of non-decreasing offsets (the linear cursor has to move onto the second line)
+// @clause linear-scan and indexed locator agree also after the linear cursor moved forward from an earlier offset
+// @fns LinearLocator::locate LinearLocator::locate_inner RandomLocator::locate
+locators!(c13_locators_agree_t1, [1, 0]);
+
+// @ob id=C13.k.locators_agree_t2 props=C13 kind=bounded tier=thorough timeout=2400
+// @bound texts with the layout [2, 1, 1] (CR LF LF); all pairs of non-decreasing offsets
+// @clause CR LF counts as one line break in both locators, also when the cursor crosses it
+// @fns LinearLocator::locate LinearLocator::locate_inner RandomLocator::locate
+locators!(c13_locators_agree_t2, [2, 1, 1]);
+
+// @ob id=C13.k.locators_agree_t3 props=C13 kind=bounded tier=thorough timeout=2400
+// @bound texts with the layout [0xEF, 0xBB, 0xBF, 0, 1, 0] (BOM x LF x); all pairs of non-decreasing offsets outside the BOM
+// @clause a leading BOM is not counted as a column, identically in both locators
+// @fns LinearLocator::locate LinearLocator::locate_inner LinearLocatorState::init RandomLocator::locate
+locators!(c13_locators_agree_t3, [0xEF, 0xBB, 0xBF, 0, 1, 0]);
+
+// @ob id=C13.k.core_canary props=C13 kind=canary
+// @clause vacuity guard
+// @fns RandomLocator::locate
+#[kani::proof]
+#[kani::unwind(8)]
+#[kani::stub(core::str::slice_error_fail, slice_error_fail_plain)]
+#[kani::stub(core::str::count::count_chars, count_chars_plain)]
+fn c13_core_canary() {
+    let mut buf: [u8; 6] = kani::any();
+    let text = text_of_layout(&[0, 1, 0], &mut buf);
+    let mut random = ManuallyDrop::new(RandomLocator::new(text));
+    let r = random.locate(TextSize::new(kani::any::<u8>() as u32 % 4));
+    assert!(r.row.get() == 1);
+}
